@@ -17,10 +17,57 @@ type Loc any
 // Effects is the may-read / may-write summary of a function (DESIGN §2.3).
 type Effects struct {
 	Reads, Writes map[Loc]bool
-	Other         bool // go/chan/select/defer-with-effects or unknown external side effect on our state
+	// WMask refines Writes: bit i (<63) = written through the object passed as
+	// parameter i (receiver included); bit 63 = written through some other
+	// (heap-loaded, global, captured) pointer.
+	WMask map[Loc]uint64
+	Other bool // go/chan/select/defer-with-effects or unknown external side effect on our state
 }
 
-func newEffects() *Effects { return &Effects{Reads: map[Loc]bool{}, Writes: map[Loc]bool{}} }
+const heapBit = uint64(1) << 63
+
+func newEffects() *Effects {
+	return &Effects{Reads: map[Loc]bool{}, Writes: map[Loc]bool{}, WMask: map[Loc]uint64{}}
+}
+
+func (e *Effects) addWrite(l Loc, mask uint64) bool {
+	if mask == 0 {
+		return false
+	}
+	old := e.WMask[l]
+	if old|mask == old {
+		return false
+	}
+	e.WMask[l] = old | mask
+	e.Writes[l] = true
+	return true
+}
+
+// rootMask classifies the root of a pointer/address value inside fn:
+// parameter bit, 0 for fresh local objects, heapBit otherwise.
+func rootMask(fn *ssa.Function, v ssa.Value) uint64 {
+	root := rootOfAddr(v)
+	switch r := root.(type) {
+	case *ssa.Parameter:
+		for i, p := range fn.Params {
+			if p == r && i < 63 {
+				return uint64(1) << uint(i)
+			}
+		}
+		return heapBit
+	case *ssa.Alloc:
+		if allocCaptured(r) {
+			return heapBit
+		}
+		return 0
+	case *ssa.MakeSlice, *ssa.MakeMap:
+		return 0
+	}
+	if isFreshValue(root, 0) {
+		return 0
+	}
+	return heapBit
+}
 
 func elemClass(t types.Type) string {
 	return "elem:" + types.TypeString(t.Underlying(), nil)
@@ -188,31 +235,23 @@ func (p *Prog) computeEffects() {
 					if s, ok := in.(*ssa.Store); ok {
 						if fa, ok := s.Addr.(*ssa.FieldAddr); ok {
 							if st := derefStruct(fa.X.Type()); st != nil && p.ourField(st.Field(fa.Field)) {
-								if _, fresh := rootOfAddr(fa).(*ssa.Alloc); !fresh {
-									e.Writes[st.Field(fa.Field)] = true
-								}
+								e.addWrite(st.Field(fa.Field), rootMask(fn, fa))
 							}
 						}
 					}
 				} else if ours {
 					locs, root := p.instrWrites(in)
-					for _, l := range locs {
-						if al, ok := root.(*ssa.Alloc); ok {
-							// stores into the function's own fresh objects are not
-							// visible effects, unless the cell is a captured variable
-							if _, isField := l.(*types.Var); isField || !allocCaptured(al) {
+					if len(locs) > 0 {
+						mask := rootMask(fn, root)
+						if al, ok := root.(*ssa.Alloc); ok && allocCaptured(al) {
+							mask = heapBit
+						}
+						for _, l := range locs {
+							if _, isCell := l.(*ssa.Alloc); isCell && mask == 0 {
 								continue
 							}
+							e.addWrite(l, mask)
 						}
-						switch root.(type) {
-						case *ssa.MakeSlice, *ssa.MakeMap:
-							continue
-						case *ssa.UnOp:
-							if isFreshValue(root, 0) {
-								continue
-							}
-						}
-						e.Writes[l] = true
 					}
 					switch in.(type) {
 					case *ssa.Go, *ssa.Send, *ssa.Select:
@@ -220,7 +259,7 @@ func (p *Prog) computeEffects() {
 					}
 					if s, ok := in.(*ssa.Store); ok {
 						if g, ok := rootOfAddr(s.Addr).(*ssa.Global); ok {
-							e.Writes[g] = true
+							e.addWrite(g, heapBit)
 						}
 					}
 				} else {
@@ -230,7 +269,7 @@ func (p *Prog) computeEffects() {
 					if s, ok := in.(*ssa.Store); ok {
 						if fa, ok := s.Addr.(*ssa.FieldAddr); ok {
 							if st := derefStruct(fa.X.Type()); st != nil && p.ourField(st.Field(fa.Field)) {
-								e.Writes[st.Field(fa.Field)] = true
+								e.addWrite(st.Field(fa.Field), heapBit)
 							}
 						}
 					}
@@ -265,13 +304,13 @@ func (p *Prog) computeEffects() {
 			}
 			e := p.mods[fn]
 			for _, out := range node.Out {
-				ce := p.mods[out.Callee.Func]
+				callee := out.Callee.Func
+				ce := p.mods[callee]
 				if ce == nil {
 					continue
 				}
-				for l := range ce.Writes {
-					if !e.Writes[l] {
-						e.Writes[l] = true
+				for l, mask := range ce.WMask {
+					if e.addWrite(l, p.translateMask(fn, out.Site, callee, mask)) {
 						changed = true
 					}
 				}
@@ -288,6 +327,44 @@ func (p *Prog) computeEffects() {
 			}
 		}
 	}
+}
+
+// translateMask maps a callee's write mask to the caller's frame at a call site.
+func (p *Prog) translateMask(caller *ssa.Function, site ssa.CallInstruction, callee *ssa.Function, mask uint64) uint64 {
+	out := mask & heapBit
+	pm := mask &^ heapBit
+	if pm == 0 {
+		return out
+	}
+	if site == nil {
+		return heapBit
+	}
+	args := callArgs(site)
+	if site.Common().IsInvoke() || len(args) != len(callee.Params) {
+		// dynamic call: closures get their parameters from the callee of the
+		// enclosing call (e.g. Visit); align from the right when possible
+		if len(site.Common().Args) == len(callee.Params) {
+			args = site.Common().Args
+		} else {
+			return heapBit
+		}
+	}
+	for i := 0; i < len(args) && i < 63; i++ {
+		if pm&(uint64(1)<<uint(i)) == 0 {
+			continue
+		}
+		if _, isPtrLike := args[i].Type().Underlying().(*types.Pointer); !isPtrLike {
+			// slices/maps passed by value share their backing store
+			switch args[i].Type().Underlying().(type) {
+			case *types.Slice, *types.Map:
+			default:
+				out |= heapBit
+				continue
+			}
+		}
+		out |= rootMask(caller, args[i])
+	}
+	return out
 }
 
 func allocCaptured(al *ssa.Alloc) bool {
@@ -372,12 +449,12 @@ func (p *Prog) isStatsField(f *types.Var) bool {
 }
 
 // CallWrites returns the locations a call instruction may write, through all
-// callees the call graph resolves it to.
-func (p *Prog) CallWrites(call ssa.CallInstruction) map[Loc]bool {
-	out := map[Loc]bool{}
+// callees the call graph resolves it to, as masks in the caller's frame.
+func (p *Prog) CallWrites(call ssa.CallInstruction) map[Loc]uint64 {
+	out := map[Loc]uint64{}
 	for _, callee := range p.Callees(call) {
-		for l := range p.Effects(callee).Writes {
-			out[l] = true
+		for l, m := range p.Effects(callee).WMask {
+			out[l] |= p.translateMask(call.Parent(), call, callee, m)
 		}
 	}
 	return out
@@ -508,8 +585,8 @@ func (p *Prog) Killed(between []ssa.Instruction, locs map[Loc]bool, symRoots map
 			if _, isB := x.Common().Value.(*ssa.Builtin); isB {
 				continue
 			}
-			for l := range p.CallWrites(x) {
-				if locs[l] {
+			for l, m := range p.CallWrites(x) {
+				if m != 0 && locs[l] {
 					return in
 				}
 			}
